@@ -56,7 +56,10 @@ def run_do(case, drv):
     from harness.props.c16 import model_snapshot
     s0 = model_snapshot(bn)
     try:
-        res = bn.do([pn[v] for v in case["do"]], inplace=case["inplace"])
+        dl = [pn[v] for v in case["do"]]
+        # the intervened nodes as list / tuple / set / generator / one-shot iterator / a single name
+        forms = [dl, tuple(dl), set(dl), (x for x in dl), iter(dl)] + ([dl[0]] if len(dl) == 1 and isinstance(dl[0], str) else [])
+        res = bn.do(forms[(len(case["edges"]) + len(dl)) % len(forms)], inplace=case["inplace"])
     except Exception as e:
         return fail(f"do raised {type(e).__name__}: {e}")
     if res is None:
